@@ -59,6 +59,20 @@ def parse_goal_output(text):
     bound_key = None
     for line in text.splitlines():
         line = line.rstrip()
+        # Bayesian-network queries: "E(V**k | A = a) = 121/125 ≈ 0.968", "The expected number of samples until ... is EXPR ≈ ..."
+        if " ≈ " in line and (line.startswith("E(") or line.startswith("The expected number of samples until")):
+            body = line.rsplit(" ≈ ", 1)[0]
+            if line.startswith("E("):
+                key, val = body.split(") = ", 1)
+                key = "BN:" + key.replace(" ", "") + ")"
+            else:
+                key, val = body.split(" is ", 1)
+                key = "BN:until:" + key[len("The expected number of samples until"):].replace(" ", "")
+            try:
+                goals[key] = {"cf": canon_closed_form(None, pieces=[val.strip()]), "exact": None}
+            except Exception as e:  # noqa
+                goals[key] = {"cf": {"vals": [["!" + type(e).__name__], ["!"]], "free": []}, "exact": None}
+            continue
         # tail bounds: "P(x >= a) <= minimum of" followed by indented "(k) bound" lines; "P(x > a) >= bound"
         if line.startswith("P(") and line.endswith("minimum of") and "| n=" not in line:
             bound_key = "P:" + line[: -len("minimum of")].strip().replace(" ", "")
@@ -113,6 +127,10 @@ def parse_goal_output(text):
                 cf = {"vals": [["!" + type(e).__name__], ["!"]], "free": []}
             goals[lhs.replace(" ", "")] = {"cf": cf, "exact": None}
             last = lhs.replace(" ", "")
+    if any(k.startswith("BN:") for k in goals) or "The following code has been generated from the input" in text:
+        # a Bayesian-network action also prints the generated program, whose variable names may contain random digits
+        # (name de-duplication draws from `random`): only the query answers are results
+        goals = {k: v for k, v in goals.items() if k.startswith("BN:")}
     return {"goals": goals, "invariants": invariants}
 
 
